@@ -51,10 +51,10 @@ def build_node_ext(node, objs, notes=None):
     return d
   if k == 'holder':
     return things.DictObj(**{n: recipes.deref(r, objs) for n, r in node['attrs'].items()})
-  if k == 'set':
-    return {leaves.dec(v) for v in node['items']}
+  if k == 'set':      # 'elems' (leaf encodings, not refs); 'items' is read for old replay files
+    return {leaves.dec(v) for v in node.get('elems', node.get('items', []))}
   if k == 'fset':
-    return frozenset(leaves.dec(v) for v in node['items'])
+    return frozenset(leaves.dec(v) for v in node.get('elems', node.get('items', [])))
   return recipes.build_node(node, objs, notes)
 
 
@@ -99,7 +99,7 @@ def dag(draw, *, max_nodes=12, leaf_profile='plain', kinds=None, p_alias=0.55,
     if i == 0 and kind not in ('B',):
       kind = 'B' if 'B' in kinds else kind
     if allow_copyof and i > 0 and not last and draw(st.floats(0, 1)) < 0.12:
-      cands = [j for j, nd in enumerate(nodes) if nd['k'] in ('B', 'list', 'dict', 'tuple')]
+      cands = [j for j, nd in enumerate(nodes) if nd['k'] in ('B', 'list', 'dict', 'tuple', 'set')]
       if cands:
         nodes.append({'k': 'copyof', 'of': draw(st.sampled_from(cands))})
         continue
@@ -231,7 +231,7 @@ def dag(draw, *, max_nodes=12, leaf_profile='plain', kinds=None, p_alias=0.55,
     elif kind in ('set', 'fset'):
       hs = leaves.leaf('hashable_ser')
       items = draw(st.lists(hs, max_size=4, unique_by=lambda k: _hash_key(leaves.dec(k))))
-      node = {'k': kind, 'items': items}
+      node = {'k': kind, 'elems': items}
     elif kind == 'holder':
       node = {'k': 'holder', 'attrs': {n: ref() for n in draw(st.lists(st.sampled_from(['inner', 'other']), unique=True, min_size=1))}}
     elif kind == 'ltuple':
